@@ -30,6 +30,16 @@ class OpcodeTableUnit(Unit):
             op = getattr(t, k)
             sa = op.serviceaction
             out.append((k, op.value, [(n, getattr(sa, n)) for n in sa.keys]))
+        # "exposes under a standard command name": what a look-up BY NAME yields for every standard name, listed by
+        # this set or not (a name the set does not list must not resolve to some other entry)
+        self.by_name = []
+        listed = set(t.keys)
+        for name in sorted(T.OPCODES):
+            try:
+                op = getattr(t, name)
+            except AttributeError:
+                continue
+            self.by_name.append((name, getattr(op, "value", op), name in listed))
         return out
 
     def ensures(self, case, a, out, X):
@@ -37,6 +47,9 @@ class OpcodeTableUnit(Unit):
             yield "C14", "table-readable", False
             return
         yield "C14", "table-nonempty", len(out.value) > 0
+        for name, v, listed in self.by_name:
+            if not listed:
+                yield "C14", "name-not-listed-by-this-set-resolves-to-the-T10-code-or-not-at-all:%s==0x%02X" % (name, T.OPCODES[name]), v == T.OPCODES[name]
         for k, v, sas in out.value:
             m = re.match(T.GENERIC_OPCODE_NAME, k)
             if m:
